@@ -99,6 +99,12 @@ def check(prog, rep):
     for o in scratch.obs:
         if o.rule.startswith('C.'):
             rep.ob('C.' + o.rule[2:], (o.module, o.function), o.construct, o.ok, o.why, line=o.line)
+    # tie handling of the weighted search: on 0/1 input every level of the binary search is one set of equal-length nodes
+    scratch = Report('C10', quiet=True)
+    C03._distance_wei(prog, scratch)
+    for o in scratch.obs:
+        if o.rule in ('K.dijkstra-relaxes-from-every-settled-node', 'K.dijkstra-next-frontier-is-all-minimal-temporary-nodes', 'K.dijkstra-settles-frontier'):
+            rep.ob('T.' + o.rule[2:], (o.module, o.function), o.construct, o.ok, o.why + ' -- on a 0/1 matrix distance_wei then differs from distance_bin', line=o.line)
     scratch = Report('C10', quiet=True)
     C08.check(prog, scratch)
     for o in scratch.obs:
